@@ -856,6 +856,46 @@ def xchain_cases(ctx, n):
         ctx.disagree("xchain", {"case": cases[j][0][:300]}, shown, cases[j][1])
 
 
+def special_cases(ctx):
+    """documents outside the single-fault families that once exposed a defect (double faults, API walks); every tier"""
+    from pdfminer.psexceptions import PSException
+    from pdfminer.pdfparser import PDFParser, PDFStreamParser
+    from pdfminer.pdfdocument import PDFDocument
+    from pdfminer.high_level import extract_text
+    base = {1: {"Type": Name("Catalog"), "Pages": Ref(2)}, 2: {"Type": Name("Pages"), "Kids": [Ref(3)], "Count": 1},
+            3: {"Type": Name("Page"), "Parent": Ref(2), "MediaBox": [0, 0, 200, 200], "Contents": Ref(4), "Resources": {"Font": {"F1": Ref(5)}}},
+            4: Stream({}, b"BT /F1 12 Tf 10 100 Td <00410042> Tj ET")}
+    f0 = dict(base)
+    f0[5] = {"Type": Name("Font"), "Subtype": Name("Type0"), "BaseFont": Name("Foo"), "ToUnicode": Name("Identity-H"), "DescendantFonts": [Ref(6)]}
+    f0[6] = {"Type": Name("Font"), "Subtype": Name("CIDFontType2"), "BaseFont": Name("Foo"), "DW": 1000,
+             "CIDSystemInfo": {"Registry": b"Adobe", "Ordering": b"Japan1", "Supplement": 0}}
+    ol = dict(base)
+    ol[5] = {"Type": Name("Font"), "Subtype": Name("Type1"), "BaseFont": Name("Helvetica")}
+    ol[1] = dict(base[1], Outlines=Ref(7))
+    ol[7] = {"First": Ref(8), "Last": Ref(9)}
+    ol[8] = {"Title": b"A", "Dest": [Ref(3)], "Next": Ref(9), "First": Ref(10), "Last": Ref(10)}
+    ol[9] = {"Title": b"B", "Dest": [Ref(3)], "Next": Ref(8)}
+    ol[10] = {"Title": b"A1", "Dest": [Ref(3)], "Next": Ref(10)}
+
+    def outlines(pdf):
+        return [t for _, t, _, _, _ in PDFDocument(PDFParser(io.BytesIO(pdf))).get_outlines()]
+
+    def stream_r(_):
+        p = PDFStreamParser(b"R 9 0 <<>> 5 R")
+        try:
+            while True:
+                p.nextobject()
+        except PSException:
+            pass
+    for name, fn, pdf in (("type0-toUnicode-name-no-encoding", lambda b: extract_text(io.BytesIO(b)), write_pdf(f0, 1)),
+                          ("outline-next-cycle", outlines, write_pdf(ol, 1)), ("payload-starts-with-R", stream_r, b"")):
+        cls, det, calls = run_budgeted(fn, pdf, 2000000)
+        ctx.case("special", name, nontrivial=True, sample={"case": name, "outcome": cls})
+        if cls not in ("ok", "family"):
+            ctx.violation("leak" if cls == "leak" else "recursion" if cls == "recursion" else "work", {"special": name, "site": det, "pdf": pdf.hex()},
+                          "returns or raises PSException", "%s %s" % (cls, det or ""), "a recorded special case fails again")
+
+
 def correspondence(ctx):
     guard_cases(ctx, ctx.n(60, 600))
     xchain_cases(ctx, ctx.n(60, 600))
@@ -863,6 +903,7 @@ def correspondence(ctx):
     struct_cases(ctx, ctx.n(60, 0))
     crypt_cases(ctx, ctx.n(80, 0))
     payload_cases(ctx, ctx.n(150, 0))
+    special_cases(ctx)
 
 
 def oracle(ctx):
